@@ -204,7 +204,13 @@ def opSEQ (args obs : List String) : Option DecOut := do
                  else if res == "hang" then [s!"C10 {opName} hangs"] else []
       let bad := evs.filter fun e => e.startsWith "wac" || e.startsWith "rac"
       let f06a := if bad.isEmpty then [] else [s!"C06 I/O on a connection after the client closed it: {bad}", s!"C14 I/O after close {bad}"]
-      let fHang := if tmo && (opName == "SND" || opName == "HLP") && evs.any (·.startsWith "hang") then ["C04 read without a deadline although a timeout is configured"] else []
+      let fHang0 := if tmo && (opName == "SND" || opName == "HLP") && evs.any (·.startsWith "hang") then ["C04 read without a deadline although a timeout is configured",
+        "C14 a send waits for its ack without a read deadline although a timeout is configured: with a silent peer it holds the session lock for ever and Disconnect / Reconnect hang behind it"] else []
+      -- the socket refused a write because a deadline armed during an earlier operation had passed: the library
+      -- arms deadlines for its own reads only, and a later send on a healthy connection must not trip over one
+      let fHang := fHang0 ++ (if evs.any (·.startsWith "zto") then
+        [s!"C04 {opName}: a write was refused by a deadline left armed on the connection by an earlier operation (a send to a conforming peer fails although nothing is wrong)",
+         s!"C09 {opName}: a write deadline left over from an earlier operation cut the message off"] else [])
       -- C14 accounting
       let (opens, closes, f14) := evs.foldl (fun (a : List String × List String × List String) e =>
         let (o, c, f) := a
@@ -225,6 +231,7 @@ def opSEQ (args obs : List String) : Option DecOut := do
         | .atom "DIS" => some .disconnect
         | .node "REC" [.atom d, ce] => (treeBool ce).map fun c => Op.reconnect (d == "ok") c
         | .atom "TP" => some .transportPhase
+        | .atom "TPS" => some .transportPhase
         | .node "HS" [_, _, .atom f] => do
           let helo ← (kvGet "helo" xs).bind parseHex
           let pong := ((kvGet "pong" xs).bind parseHex).getD []
